@@ -1,5 +1,6 @@
 """Run contracts: explore paths, discharge obligations, concretise + replay failures."""
 import itertools
+import re
 import json
 import os
 import random
@@ -575,42 +576,49 @@ def _canon_sizes(d, space):
     return out
 
 
+def iter_size_configs(space, seed=0):
+    """all canonical size assignments, by increasing total 'excess over the minimum';
+    order within one total is shuffled by seed"""
+    names = sorted(space)
+    doms = [sorted(space[n]) for n in names]
+    rnd = random.Random(seed)
+    max_excess = sum(len(d) - 1 for d in doms)
+
+    def rec(i, left, cur):
+        if i == len(names):
+            if left == 0:
+                yield dict(cur)
+            return
+        rest = sum(len(d) - 1 for d in doms[i + 1 :])
+        for k in range(min(left, len(doms[i]) - 1), -1, -1):
+            if left - k > rest:
+                break
+            cur.append((names[i], doms[i][k]))
+            yield from rec(i + 1, left - k, cur)
+            cur.pop()
+
+    for total in range(max_excess + 1):
+        batch = []
+        for d in rec(0, total, []):
+            if _canon_sizes(d, space) == d:
+                batch.append(d)
+                if len(batch) > 50000:
+                    break
+        rnd.shuffle(batch)
+        for d in batch:
+            yield d
+
+
 def size_configs(contract, cfg, seed, cap=60):
-    """candidate concrete size assignments: small total first, shuffled within a total"""
+    """first `cap` candidate concrete size assignments (small total first)"""
     space = contract.size_space(cfg)
     if not space:
         return [{}]
-    names = sorted(space)
-    doms = [space[n] for n in names]
-    total = 1
-    for d in doms:
-        total *= len(d)
-    rnd = random.Random(seed)
-    seen = set()
     out = []
-    if total <= 300000:
-        allc = []
-        for c in itertools.product(*doms):
-            d = _canon_sizes(dict(zip(names, c)), space)
-            key = tuple(d[n] for n in names)
-            if key in seen:
-                continue
-            seen.add(key)
-            allc.append(d)
-        rnd.shuffle(allc)
-        allc.sort(key=lambda d: sum(d.values()))
-        return allc[:cap]
-    # very large spaces: random sampling biased to small values
-    for _ in range(cap * 20):
-        d = _canon_sizes({n: rnd.choice(space[n][: rnd.randint(1, len(space[n]))]) for n in names}, space)
-        key = tuple(d[n] for n in names)
-        if key in seen:
-            continue
-        seen.add(key)
+    for d in iter_size_configs(space, seed):
         out.append(d)
         if len(out) >= cap:
             break
-    out.sort(key=lambda d: sum(d.values()))
     return out
 
 
@@ -652,14 +660,23 @@ def zi_(x):
     return core.zi(x)
 
 
+_CELL_SUFFIX = re.compile(r"@\d+(,\d+)*")
+
+
+def base_name(ob_name):
+    """obligation name without the per-cell suffix added in mode B (name[i,j])"""
+    return _CELL_SUFFIX.sub("", ob_name)
+
+
 def find_counterexample(contract, repo, cfg, ob_name, seed=0, budget_s=60, hint=None):
     """search small sizes (mode B) for a model refuting `ob_name`, then replay it (mode C).
     -> dict(found, sizes, values, failures, exc) or None"""
     t0 = time.time()
     tried = 0
-    cands = size_configs(contract, cfg, seed, cap=20000)
+    space = contract.size_space(cfg)
+    cands = iter_size_configs(space, seed) if space else iter([{}])
     if hint:
-        cands = [hint] + cands
+        cands = itertools.chain([hint], cands)
     for sizes in cands:
         if time.time() - t0 > budget_s:
             break
@@ -670,7 +687,7 @@ def find_counterexample(contract, repo, cfg, ob_name, seed=0, budget_s=60, hint=
         tried += 1
         for po in paths:
             for ob in po.obligations:
-                if ob.name.split("[")[0] != ob_name.split("[")[0]:
+                if base_name(ob.name) != base_name(ob_name):
                     continue
                 status, secs, model = discharge(ob, po.axioms, 10000, want_model=True)
                 if status != "refuted" or model is None:
@@ -708,7 +725,7 @@ def verify_bounded(contract, repo, cfg, seed, thorough=False):
         n_cfg += 1
         sizes_seen.append(sizes)
         for r in out["results"]:
-            rec = by_name.setdefault(r.name.split("[")[0], dict(status="proved", secs=0.0, kind=r.kind, detail=None))
+            rec = by_name.setdefault(base_name(r.name), dict(status="proved", secs=0.0, kind=r.kind, detail=None))
             rec["secs"] += r.secs
             if r.status != "proved" and rec["status"] == "proved":
                 rec["status"] = r.status
